@@ -134,7 +134,7 @@ def cases(tier):
         nocc = len(occupations(sup))
         out.append({'key': '{}:{}:group'.format(cname, mname), 'crystal': cname, 'matrix': mname, 'what': 'group',
                     'cost': 0.002 * len(sup.G) * len(sup.pos)})
-        blk = BLOCK[tier]
+        blk = max(2, min(BLOCK[tier], 1500 // max(1, nocc)))      # keep every case to a few thousand equivalencemap calls
         for a0 in range(0, nocc, blk):
             out.append({'key': '{}:{}:pairs:{}-{}'.format(cname, mname, a0, min(a0 + blk, nocc) - 1), 'crystal': cname,
                         'matrix': mname, 'what': 'pairs', 'a0': a0, 'a1': min(a0 + blk, nocc),
